@@ -31,11 +31,12 @@ Accepts(b) ==   \* does the client's reply checking accept behaviour b
   \/ Genuine(b)
   \/ (Variant = "NoNonceCheck" /\ b \in {"wrongNonce", "noNonce"})
   \/ (Variant = "NoImprintCheck" /\ b = "wrongImprint")
-  \/ (Variant = "AcceptRejected" /\ b \in {"rejected", "waiting"})
+  \/ (Variant = "AcceptRejected" /\ b \in {"rejected", "waiting", "revocationWarning", "statusUnknown"})
   \/ (Variant = "NoTokenSigCheck" /\ b = "badTokenSig")
 
 \* would the final self-check (verify signature + timestamp against THIS signature value) pass
-SelfCheckPasses(b) == Genuine(b) \/ b \in {"wrongNonce", "noNonce"}   \* the nonce is not part of what a verifier can check
+\* (a token shipped with a non-granting status is cryptographically fine, so the self-check cannot tell)
+SelfCheckPasses(b) == Genuine(b) \/ b \in {"wrongNonce", "noNonce", "revocationWarning", "statusUnknown"}   \* the nonce is not part of what a verifier can check
 
 Init ==
   /\ urls \in UNION {[1..n -> Behaviours] : n \in 1..MaxUrls}
